@@ -9,12 +9,14 @@ package main
 //
 //   c06 engine=legacy|exp cpoff=0|1 cps=<idx,..> init=<idx,..> forbid=<idx,..> sched=serial|free seed=<n> salt=<n>
 //   tree parents=<p0,p1,..> [bits=<hex,..>]          parent -1 = genesis; parent index < own index
-//   node path=<idx,..> pos=<k> cap=<n> dir=out|in honest=0|1 [closeat=<k>] [stallat=<k>] [nover=1]
-//   step connect <node> | serve <node> | run | announce <node> inv|headers <k> | push <node> inv|headers <idx,..>
+//   node path=<idx,..> pos=<k> cap=<n> dir=out|in honest=0|1 [closeat=<k>] [stallat=<k>] [nostop=1]
+//   step connect <node> | serve <node> | run | announce <node> inv|invx|headers <k> | push <node> inv|headers <idx,..>
 //        | close <node> | stall <node> | tick <seconds> | settle
 //
 // cps / init / forbid / path / push refer to tree indices. A node's best chain is path[:pos];
-// `announce n inv k` moves pos forward by k and announces the new blocks.
+// `announce n inv k` moves pos forward by k and announces the new blocks; `invx` announces them in ONE inv message that
+// also carries the (already announced) blocks before them and non-block (tx) entries before and after;
+// `nostop=1` makes a (misbehaving) node ignore the stop hash of getheaders.
 
 import (
 	"crypto/sha256"
@@ -33,6 +35,7 @@ type scnNode struct {
 	Honest  bool
 	CloseAt int // close the connection instead of answering the k-th getheaders (0-based); -1 = never
 	StallAt int // stop answering from the k-th getheaders on; -1 = never
+	NoStop  bool // ignores the stop hash (misbehaving nodes only)
 }
 
 type scnStep struct {
@@ -146,6 +149,9 @@ func (s *scn) Ops() []string {
 		}
 		if n.StallAt >= 0 {
 			l += fmt.Sprintf(" stallat=%d", n.StallAt)
+		}
+		if n.NoStop {
+			l += " nostop=1"
 		}
 		ops = append(ops, l)
 	}
@@ -296,6 +302,7 @@ func parseScn(ops []string) (*scn, error) {
 			if v, ok := m["stallat"]; ok {
 				n.StallAt, _ = strconv.Atoi(v)
 			}
+			n.NoStop = m["nostop"] == "1"
 			s.Nodes = append(s.Nodes, n)
 		case "step":
 			if len(ws) < 2 {
